@@ -108,6 +108,11 @@ STATEMENT_STATUS: Dict[str, str] = {
     "header_ignored": "proved: the FontFile bytes have no influence unless the font is non-Type3, non-standard-14 and "
                       "has no Encoding entry",
     "exampleHeader_puts / put_underflow_ignored / odd_dict_raises": "proved by kernel evaluation of the tokeniser model on concrete headers",
+    "t1_roundtrip / t1_roundtrip_puts": "proved: for EVERY written header (any leading white space / comments; dup <key> "
+                                        "/<name> put lines with signed keys, leading zeros, #xx escapes, any white "
+                                        "space / comments between tokens, inert keywords, stray integers) tokeniser + "
+                                        "stack machine return exactly the written pairs, no exception (was: "
+                                        "kernel-evaluated instances only); rtItems_ok: non-vacuity",
     "getFont_transparent / font_cache_transparent": "proved: PDFResourceManager.get_font with or without caching returns "
                                                     "for every request sequence exactly the freshly constructed fonts",
 }
@@ -1724,6 +1729,228 @@ def run_t1puts(ctx: C.Ctx) -> None:
                 ctx.disagree("t1puts", {"header": ln[7:][:400]}, a[:200], b[:200])
 
 
+# ---------------------------------------------------------------------------------------------
+# round trip of WRITTEN Type 1 headers (theorem t1_roundtrip): a spelling -> bytes (Lean `writeHeader`, and
+# independently here) -> the real Type1FontHeaderParser must return exactly the written pairs
+
+_NAME_RAW = [c for c in range(33, 127) if c not in b"#()<>[]{}/%"]
+_T1_WORDS = [b"dict", b"begin", b"readonly", b"def", b"array", b"for", b"currentdict", b"end", b"currentfile",
+             b"eexec", b"index", b"exch", b"dup", b"FontDirectory", b"known", b"pop", b"ifelse", b"putt", b"truee",
+             b"pu", b"False", b"True", b"PUT"]
+
+
+def gen_sep(rng, nonempty: bool) -> List[Any]:
+    n = rng.choice([0, 1, 1, 1, 2, 3]) if not nonempty else rng.choice([1, 1, 1, 2, 3])
+    out = []
+    for _ in range(n):
+        if rng.random() < 0.8:
+            out.append(("w", rng.choice([32, 32, 32, 10, 13, 9, 12, 0])))
+        else:
+            body = bytes(rng.choice([32, 37, 47, 40, 41, 60, 62, 91, 123, 125, 0, 255, 112, 117, 116, 35, 65, 48])
+                         for _ in range(rng.randint(0, 6)))
+            if rng.random() < 0.3:
+                body = b" dup 9 /X put"
+            out.append(("c", body, rng.choice([10, 13])))
+    return out
+
+
+def sep_bytes(g) -> bytes:
+    return b"".join(bytes([it[1]]) if it[0] == "w" else b"%" + it[1] + bytes([it[2]]) for it in g)
+
+
+def sep_word(g) -> str:
+    if not g:
+        return "-"
+    return ",".join("w%02x" % it[1] if it[0] == "w" else "c%s:%02x" % (C.hx(it[1]), it[2]) for it in g)
+
+
+def gen_spelled_name(rng) -> List[Any]:
+    kind = rng.random()
+    items: List[Any] = []
+    if kind < 0.1:
+        return items
+    for _ in range(rng.randint(1, 8)):
+        r = rng.random()
+        if r < 0.7:
+            items.append(("r", rng.choice(_NAME_RAW)))
+        elif r < 0.85:
+            v = rng.choice([0x5F, 0x2E, 0x20, 0x23, 0x2F, 0x28, 0x00, 0x7F, 0x41, 0x80, 0xFF, rng.randrange(256)])
+            h = "%02X" % v if rng.random() < 0.5 else "%02x" % v
+            items.append(("e", ord(h[0]), ord(h[1])))
+        else:
+            # a UTF-8 sequence (valid or not) through escapes
+            seq = rng.choice([b"\xc3\xa9", b"\xe2\x82\xac", b"\xf0\x9f\x98\x80", b"\xc3", b"\xed\xa0\x80", b"\xc0\x80",
+                              b"\xf4\x90\x80\x80", b"\xe0\x9f\xbf"])
+            for v in seq:
+                h = "%02X" % v
+                items.append(("e", ord(h[0]), ord(h[1])))
+    return items
+
+
+def name_bytes(items) -> bytes:
+    return b"".join(bytes([it[1]]) if it[0] == "r" else b"#" + bytes([it[1], it[2]]) for it in items)
+
+
+def name_value(items) -> bytes:
+    return bytes(it[1] if it[0] == "r" else int(chr(it[1]) + chr(it[2]), 16) for it in items)
+
+
+def name_word(items) -> str:
+    if not items:
+        return "-"
+    return ",".join("r%02x" % it[1] if it[0] == "r" else "e%02x%02x" % (it[1], it[2]) for it in items)
+
+
+def gen_digits(rng) -> Tuple[str, str]:
+    sign = rng.choice(["n", "n", "n", "p", "m"])
+    r = rng.random()
+    if r < 0.6:
+        ds = str(rng.randrange(256))
+    elif r < 0.8:
+        ds = "0" * rng.randint(1, 3) + str(rng.randrange(300))
+    elif r < 0.95:
+        ds = str(rng.randrange(10 ** rng.randint(3, 12)))
+    else:
+        ds = "".join(rng.choice("0123456789") for _ in range(rng.randint(20, 60)))
+    return sign, ds
+
+
+_SIGN = {"n": b"", "p": b"+", "m": b"-"}
+
+
+def gen_header_items(rng) -> List[Any]:
+    items: List[Any] = []
+    for _ in range(rng.randint(0, 10)):
+        r = rng.random()
+        if r < 0.6:
+            sign, ds = gen_digits(rng)
+            items.append(("P", sign, ds, gen_spelled_name(rng), gen_sep(rng, True), gen_sep(rng, False),
+                          gen_sep(rng, True), gen_sep(rng, True)))
+        elif r < 0.85:
+            w = rng.choice(_T1_WORDS) if rng.random() < 0.8 else \
+                bytes(rng.choice(b"abcdefghijklmnopqrstuvwxyzABCDEFGHIJKLMNOPQRSTUVWXYZ") for _ in range(rng.randint(1, 6)))
+            if w in (b"put", b"true", b"false"):
+                w = b"dup"
+            items.append(("W", w, gen_sep(rng, True)))
+        else:
+            sign, ds = gen_digits(rng)
+            items.append(("N", sign, ds, gen_sep(rng, True)))
+    return items
+
+
+def header_item_bytes(it) -> bytes:
+    if it[0] == "P":
+        return (b"dup" + sep_bytes(it[4]) + _SIGN[it[1]] + it[2].encode() + sep_bytes(it[5]) + b"/" + name_bytes(it[3])
+                + sep_bytes(it[6]) + b"put" + sep_bytes(it[7]))
+    if it[0] == "W":
+        return it[1] + sep_bytes(it[2])
+    return _SIGN[it[1]] + it[2].encode() + sep_bytes(it[3])
+
+
+def header_item_word(it) -> str:
+    if it[0] == "P":
+        return "|".join(["P", it[1], it[2], name_word(it[3]), sep_word(it[4]), sep_word(it[5]), sep_word(it[6]),
+                         sep_word(it[7])])
+    if it[0] == "W":
+        return "|".join(["W", C.hx(it[1]), sep_word(it[2])])
+    return "|".join(["N", it[1], it[2], sep_word(it[3])])
+
+
+def header_intent(items) -> str:
+    out = []
+    for it in items:
+        if it[0] != "P":
+            continue
+        k = int(it[2]) * (-1 if it[1] == "m" else 1)
+        v = name_value(it[3])
+        try:
+            nm = v.decode("utf-8")
+            out.append("%d:%s" % (k, name_arg(("s", nm))))
+        except UnicodeDecodeError:
+            out.append("%d:b" % k)
+    return " ".join(out) or "-"
+
+
+def written_header(pad, items) -> bytes:
+    return sep_bytes(pad) + b"".join(header_item_bytes(it) for it in items)
+
+
+def t1write_ok(pad, items) -> bool:
+    return impl_t1puts(written_header(pad, items)) == header_intent(items)
+
+
+def t1write_json(pad, items) -> Dict[str, Any]:
+    return {"op": "t1write", "pad": sep_word(pad), "items": [header_item_word(it) for it in items],
+            "header": C.hx(written_header(pad, items))[:2000]}
+
+
+def _sep_from_word(w: str):
+    if w == "-":
+        return []
+    out = []
+    for it in w.split(","):
+        if it[0] == "w":
+            out.append(("w", int(it[1:], 16)))
+        else:
+            b, e = it[1:].split(":")
+            out.append(("c", bytes.fromhex(b if b != "-" else ""), int(e, 16)))
+    return out
+
+
+def _item_from_word(w: str):
+    f = w.split("|")
+    if f[0] == "P":
+        nm = [] if f[3] == "-" else [("r", int(x[1:], 16)) if x[0] == "r" else ("e", int(x[1:3], 16), int(x[3:5], 16))
+                                     for x in f[3].split(",")]
+        return ("P", f[1], f[2], nm, _sep_from_word(f[4]), _sep_from_word(f[5]), _sep_from_word(f[6]), _sep_from_word(f[7]))
+    if f[0] == "W":
+        return ("W", bytes.fromhex(f[1]), _sep_from_word(f[2]))
+    return ("N", f[1], f[2], _sep_from_word(f[3]))
+
+
+def check_t1write(ctx: C.Ctx, cases: List[Tuple[Any, Any]], label: str = "") -> None:
+    lines, meta = [], []
+    for pad, items in cases:
+        data_ = written_header(pad, items)
+        intent = header_intent(items)
+        impl = impl_t1puts(data_)
+        kinds = sorted(set(it[0] for it in items))
+        ctx.case(("t1write", data_), any(it[0] == "P" for it in items),
+                 branch="t1write:" + (label or "+".join(kinds) or "empty"))
+        for it in items:
+            if it[0] == "P":
+                ctx.branch("t1write.put:" + ("g2-empty" if not it[5] else "g2") + ("/esc" if any(x[0] == "e" for x in it[3]) else "")
+                           + ("/sign" if it[1] != "n" else ""))
+            for g in ([it[4], it[5], it[6], it[7]] if it[0] == "P" else [it[-1]]):
+                for x in g:
+                    ctx.branch("t1write.sep:" + ("comment" if x[0] == "c" else "ws%d" % x[1]))
+        if impl != intent:
+            small = C.ddmin(list(items), lambda sub: not t1write_ok(pad, sub)) if len(items) > 1 else list(items)
+            if t1write_ok(pad, small):
+                small = list(items)
+            cfail(ctx, C.Failure("Type1FontHeaderParser: a written header (dup <key> /<name> put lines between inert "
+                                 "keywords, any white space / comments) is not read back as the written (key, name) pairs",
+                                 t1write_json(pad, small), header_intent(small),
+                                 impl_t1puts(written_header(pad, small)), {"op": "t1write"}))
+        lines.append("t1write " + sep_word(pad) + "".join(" " + header_item_word(it) for it in items))
+        meta.append((data_, impl, pad, items))
+    if ctx.driver is not None and lines:
+        for ln, (data_, impl, pad, items), rep in zip(lines, meta, ctx.driver.ask(lines)):
+            parts = rep.split(" ", 1)
+            if parts[0] != C.hx(data_):
+                ctx.disagree("t1write.bytes", t1write_json(pad, items), C.hx(data_)[:300], parts[0][:300])
+            elif len(parts) < 2 or parts[1] != impl:
+                ctx.disagree("t1write.roundtrip-rhs", t1write_json(pad, items), impl[:300], rep[-300:])
+
+
+def run_t1write(ctx: C.Ctx) -> None:
+    rng = ctx.rng
+    cases = []
+    for _ in range(ctx.n(400, 8000)):
+        cases.append((gen_sep(rng, False), gen_header_items(rng)))
+    check_t1write(ctx, cases)
+
+
 def run_utf16(ctx: C.Ctx) -> None:
     rng = ctx.rng
     lines, mine = [], []
@@ -1931,6 +2158,8 @@ def replay(ctx: C.Ctx, doc, from_corpus: bool = False) -> None:
         check_encodings(ctx, [(inp["base"], diff_from_json(inp["differences"]), [label])])
     elif op == "font":
         check_fonts(ctx, [(f2, [label + ":context"]) for f2 in inp.get("doc", [])] + [(inp["font"], [label])])
+    elif op == "t1write":
+        check_t1write(ctx, [(_sep_from_word(inp["pad"]), [_item_from_word(w) for w in inp["items"]])], label)
     elif op == "table":
         run_refdata(ctx, (inp["table"], inp["key"]))
     elif op == "table-indep":
@@ -1944,6 +2173,7 @@ def run(ctx: C.Ctx) -> None:
     run_tables(ctx)
     run_utf16(ctx)
     run_t1puts(ctx)
+    run_t1write(ctx)
     run_names(ctx)
     run_encodings(ctx)
     run_fonts(ctx)
